@@ -1103,6 +1103,30 @@ func (s *Sim) IsDown() bool {
 	return s.down
 }
 
+// LockWaiterIDs returns the identities of all goroutines waiting for a scheduler-granted locker, held or not.
+func (s *Sim) LockWaiterIDs() []string {
+	s.mu.Lock()
+	defer s.mu.Unlock()
+	var out []string
+	for _, l := range s.lockers {
+		for _, w := range l.waiters {
+			out = append(out, w.id)
+		}
+	}
+	return out
+}
+
+// ParkedIDs returns the identities of the goroutines waiting at yield points (unsorted copy).
+func (s *Sim) ParkedIDs() []string {
+	s.mu.Lock()
+	defer s.mu.Unlock()
+	out := make([]string, 0, len(s.parked))
+	for _, p := range s.parked {
+		out = append(out, p.ID)
+	}
+	return out
+}
+
 // ParkedCount returns the number of goroutines waiting at yield points.
 func (s *Sim) ParkedCount() int {
 	s.mu.Lock()
